@@ -84,7 +84,35 @@ mod imp {
             _ => out.push_str(" DIFF-to_value"),
         }
         if raw.to_string() != span { out.push_str(" DIFF-display"); }
+        if format!("{:?}", raw) != format!("RawValue({})", span) { out.push_str(" DIFF-debug"); }
+        if raw.clone().get() != span || raw.to_owned().get() != span { out.push_str(" DIFF-clone"); }
+        if &*Box::<str>::from(raw.clone()) != span { out.push_str(" DIFF-into-box-str"); }
+        // `impl Deserializer for &RawValue`: reading a type out of a captured value is reading it out of the captured text
+        fn same<T: serde::de::DeserializeOwned + PartialEq + std::fmt::Debug>(raw: &RawValue, span: &str) -> bool {
+            let a = T::deserialize(raw);
+            let b = serde_json::from_str::<T>(span);
+            match (a, b) {
+                (Ok(x), Ok(y)) => x == y,
+                (Err(e1), Err(e2)) => e1.classify() == e2.classify() && e1.line() == e2.line() && e1.column() == e2.column(),
+                _ => false,
+            }
+        }
+        if !same::<Value>(&raw, span) { out.push_str(" DIFF-deserializer-Value"); }
+        if !same::<Vec<Value>>(&raw, span) { out.push_str(" DIFF-deserializer-Vec"); }
+        if !same::<u8>(&raw, span) { out.push_str(" DIFF-deserializer-u8"); }
+        if !same::<String>(&raw, span) { out.push_str(" DIFF-deserializer-String"); }
+        if !same::<Option<(bool, f64)>>(&raw, span) { out.push_str(" DIFF-deserializer-Option-tuple"); }
+        if !same::<std::collections::BTreeMap<String, Value>>(&raw, span) { out.push_str(" DIFF-deserializer-Map"); }
+        if !same::<Box<RawValue2>>(&raw, span) { out.push_str(" DIFF-deserializer-Raw"); }
+        if <Box<RawValue>>::default().get() != "null" { out.push_str(" DIFF-default"); }
         out
+    }
+    // Box<RawValue> compared by text
+    #[derive(Debug)]
+    pub struct RawValue2(Box<RawValue>);
+    impl PartialEq for RawValue2 { fn eq(&self, o: &Self) -> bool { self.0.get() == o.0.get() } }
+    impl<'de> Deserialize<'de> for Box<RawValue2> {
+        fn deserialize<D: Deserializer<'de>>(d: D) -> Result<Self, D::Error> { Ok(Box::new(RawValue2(<Box<RawValue>>::deserialize(d)?))) }
     }
 
     pub fn run(f: &[&str]) -> String {
